@@ -1,18 +1,3 @@
-//! vh-mgmt: checks of the node service manager (antctl) over a simulated OS.
-//!   C19 — lifecycle state vs. managed processes under injected faults
-//!   C20 — upgrade keeps every setting; the real antnode accepts what antctl writes
-mod c19;
-mod c20;
-mod fakeos;
-
 fn main() {
-    let cfg = vh_core::RunCfg::from_args();
-    match cfg.prop.as_str() {
-        "C19" => c19::run(cfg),
-        "C20" => c20::run(cfg),
-        other => {
-            eprintln!("vh-mgmt: unknown property {other}");
-            std::process::exit(2);
-        }
-    }
+    vh_mgmt::main_entry()
 }
